@@ -16,6 +16,12 @@ RULE = ('(a) every op / nn op / loss once or more with operands that are NumPy v
         'reused by several ops; (b) DAG programs with two backward calls through the same root and a later graph re-using it; '
         'after every forward and every backward the bytes (`tobytes()` of the arrays and of their bases) of every operand, target, '
         'unrelated tensor, unrelated gradient and of the caller\'s gradient tensors are compared with the snapshot taken before; '
+        '(c) backward touches nothing outside the graph: bystander tensors in every gradient state (leaf without a gradient / with an accumulated one, '
+        'non-leaf with a retained / released gradient, root of an earlier call, user-assigned .grad on a leaf and on a plain tensor, frozen leaf, zeroed '
+        'gradient), values derived from them as constants (ops / operator statements / nn ops / layers under no_grad, nested and exception-left blocks, '
+        'detach(), Tensor(t.data), Tensor(t.data.copy()), requires_grad switched off) used by a NEW graph over a fresh leaf that is then '
+        'differentiated once or more (also inside retain_grads / no_grad): the gradient STATE of every tensor outside that graph — absent / its bytes / '
+        'which buffer object — and its data are compared around every call (a constant ends the graph: its producers are outside); '
         'every op is repeated and must be bit-identical; clone() and detach() of every tensor created (leaves with and without requires_grad, views, op results) must be a different object over storage that shares no memory with the source, and writing into it must leave the source alone; the values of all tensors are also compared with the model (in which data '
         'are immutable). Non-trivial: a program with an aliased operand or two backward calls.')
 EXHAUSTIVE = {'quick': False, 'thorough': False}
@@ -44,6 +50,15 @@ class Exec(tprog.Impl):
         self.problems = []
         self.gs = []
         self.parents = {}       # tensor id -> operand ids
+        self.tracked = {}       # tensor id -> made with gradient mode on from at least one operand that required grad (else: a constant, its producers are outside every graph)
+        self.keep = {}          # every gradient buffer ever seen stays referenced: `id()` of a live object is not reused
+
+    def exec(self, line):
+        self.li = getattr(self, 'li', -1) + 1
+        n = len(self.problems)
+        r = super().exec(line)
+        if len(self.problems) > n and getattr(self, 'first_at', None) is None: self.first_at = self.li      # the line at which the first problem showed
+        return r
 
     def snap(self):
         d = {}
@@ -51,7 +66,10 @@ class Exec(tprog.Impl):
             if x is None: continue
             d[('data', k)] = x.data.tobytes()
             if x.data.base is not None: d[('base', k)] = np.asarray(x.data.base).tobytes()
-            if x._grad is not None: d[('grad', k)] = x._grad.tobytes()
+            # the gradient STATE: absent / the bytes / which buffer object it is
+            d[('grad', k)] = None if x._grad is None else np.asarray(x._grad).tobytes()
+            d[('grad buffer identity', k)] = None if x._grad is None else id(x._grad)
+            if x._grad is not None: self.keep[id(x._grad)] = x._grad
         for k, g in enumerate(self.gs):
             d[('g', k)] = g.data.tobytes()
         for k, a in enumerate(getattr(self, 'readonly_aux', [])):       # eval-mode running statistics handed to batch_norm
@@ -88,7 +106,7 @@ class Exec(tprog.Impl):
             v = st.pop()
             if v in seen: continue
             seen.add(v)
-            st += self.parents.get(v, [])
+            if self.tracked.get(v, True): st += self.parents.get(v, [])      # a constant is where the graph ends
         return seen
 
     def run(self, line):
@@ -100,7 +118,23 @@ class Exec(tprog.Impl):
                 self.ts[k].data = self.ts[self.alias[k]].data.reshape(self.ts[k].data.shape).view()
             self.independence(k)
             return out
+        if t[1] in ('detach', 'fromdata'):      # tensors made from tensors without an op: new leaves, nothing upstream of them
+            x = self.ts[int(t[2])]
+            before = self.snap()
+            if t[1] == 'detach': r = x.detach()
+            else: r = self.sg.Tensor(x.data if t[4] == 'data' else x.data.copy(), requires_grad=bool(int(t[3])))
+            self.ts.append(r)
+            after = self.snap()
+            for key, b in before.items():
+                if after.get(key) != b: self.problems.append(f'{line[:80]} changed {key}')
+            return f't{len(self.ts) - 1}'
+        if t[1] == 'setgrad':                   # `x.grad = Tensor(array)`, the public setter
+            shape = tuple(common.parse_ints(t[3]))
+            self.ts[int(t[2])].grad = self.sg.Tensor(np.array(common.parse_floats(t[4]), dtype=np.float64).reshape(shape))
+            return 'ok'
         if t[1] in ('op', 'loss', 'sop'):
+            ins = common.parse_ints(t[3]) if t[1] == 'op' else [int(t[4]), int(t[5])] if t[1] == 'loss' else [int(t[3])] + ([int(t[4][1:])] if t[4][0] == 't' else [])
+            tracked = bool(self.tm.gradient__) and any(self.ts[i] is not None and self.ts[i].requires_grad for i in ins if i < len(self.ts))
             before = self.snap()
             n0 = len(self.ts)
             out = super().run(line)
@@ -108,9 +142,9 @@ class Exec(tprog.Impl):
             for key, b in before.items():
                 if after.get(key) != b:
                     self.problems.append(f'{line[:80]} changed {key}')
-            ins = common.parse_ints(t[3]) if t[1] == 'op' else [int(t[4]), int(t[5])] if t[1] == 'loss' else [int(t[3])]
             for k in range(n0, len(self.ts)):
                 self.parents[k] = ins
+                self.tracked[k] = tracked
             # repeat: bit-identical result, operands still untouched
             n1 = len(self.ts)
             vals1 = [None if x is None else x.data.tobytes() for x in self.ts[n0:n1]]
@@ -133,11 +167,110 @@ class Exec(tprog.Impl):
             inside = {k_ for k_ in self.reach(r) if self.ts[k_] is not None and self.ts[k_].requires_grad}      # a frozen operand is outside
             for key, b in before.items():
                 kind, k = key
-                if kind == 'grad' and k in inside: continue
+                if kind in ('grad', 'grad buffer identity') and k in inside: continue
                 if after.get(key) != b:
                     self.problems.append(f'{line[:60]} changed {key}')
             return 'ok trace=' + (','.join(tr) if tr else '_')
         return super().run(line)
+
+
+def to_model(line):
+    t = line.split(' ')
+    if len(t) > 4 and t[1] == 'fromdata': return ' '.join(t[:4])        # (the model has one spelling of the `.data` round trip)
+    return line
+
+
+# ---- backward touches nothing outside the graph: bystanders in every gradient state, constants derived from them ---------------
+BYSTANDERS = ['leaf without a gradient', 'leaf with an accumulated gradient', 'non-leaf with a retained gradient', 'non-leaf whose gradient was released',
+              'root of an earlier backward', 'leaf with a user-assigned .grad', 'plain tensor with a user-assigned .grad', 'leaf with a gradient, then frozen',
+              'leaf whose gradient was zeroed']
+DERIVATIONS = ['op under no_grad', 'two ops under no_grad', 'operator statement under no_grad', 'unary / nn op under no_grad',
+               'op under no_grad nested in retain_grads', 'op under two nested no_grad blocks, one left by exception', 'detach()',
+               'Tensor(t.data)', 'Tensor(t.data.copy())', 'requires_grad switched off']
+
+
+def bystander_case(rng, plan, nbw):
+    """tensors in every gradient state (`BYSTANDERS`); values derived from them in the ways of `plan` = [(derivation, bystander)];
+    a NEW graph over a fresh leaf that uses those values as constants; `nbw` backward calls through it. The executor compares the
+    gradient state (absent / bytes / buffer identity) and the data of every tensor outside the differentiated graph around each call;
+    values, gradients and flags are compared with the model afterwards"""
+    sh = rng.pick([(2,), (3,), (2, 2)])
+    D = lambda: show_floats([v if v else 0.5 for v in gen_dag.rand_data(rng, sh)])
+    L = lambda rg: gen_dag.leaf_line(sh, [v if v else 0.5 for v in gen_dag.rand_data(rng, sh)], rg)
+    S = show_ints(sh)
+    lines = [L(True), L(True), L(False), 't op mul 1,2', 't retain 3', 't op add 3,1', 't op mul 4,4', f't bw 5 {S} {D()}']      # q; p, c, a = p*c (retained), b = a+p (released), e = b*b (root)
+    if rng.chance(.4): lines.append(f't bw 5 {S} {D()}')
+    lines += [L(True), f't setgrad 6 {S} {D()}', L(False), f't setgrad 7 {S} {D()}',
+              L(True), 't op mul 8,8', f't bw 9 {S} {D()}', 't setrg 8 0',
+              L(True), 't op mul 10,10', f't bw 11 {S} {D()}', 't zero 10']
+    by = {0: 0, 1: 1, 2: 3, 3: 4, 4: 5, 5: 6, 6: 7, 7: 8, 8: 10}      # index into BYSTANDERS -> tensor
+    others = [0, 1, 3, 4, 6, 8, 10]
+    nt, nctx = 12, 0
+    consts = []
+    for d, b in plan:
+        src = by[b]
+        k = DERIVATIONS.index(d)
+        if k <= 5:
+            layout = {4: ['rg', 'ng'], 5: ['ng', 'ng']}.get(k, ['ng'])
+            for j, kind in enumerate(layout): lines += [f't ctx new {kind}', f't ctx enter {nctx + j}']
+            if k == 5: lines.append(f't ctx exitexc {nctx + 1}')
+            if k == 1:
+                lines += [f't op {rng.pick(["mul", "add"])} {src},{rng.pick(others)}', f't op {rng.pick(["mul", "add"])} {nt},{rng.pick(others)}']; nt += 2
+            elif k == 2:
+                kind = rng.pick(['sub', 'rsub', 'mul', 'add', 'neg'])
+                arg = f't{rng.pick(others)}' if kind == 'sub' and rng.chance(.7) else f's{common.fbits(rng.pick([2.0, -0.5, 1.5]))}'
+                lines.append(f't sop {kind} {src} {arg}')
+                nt += {'add': 1, 'mul': 1, 'neg': 1, 'rsub': 3}.get(kind, 2 if arg[0] == 't' else 1) + 1
+            elif k == 3:
+                lines.append(f't op {rng.pick(["relu", "tanh", "sigmoid", "exp", "neg", "clone"])} {src}'); nt += 1
+            else:
+                o = rng.pick(others)
+                lines.append(f't op {rng.pick(["mul", "add"])} ' + (f'{src},{o}' if rng.chance(.5) else f'{o},{src}')); nt += 1
+            for j in reversed(range(len(layout))):
+                if not (k == 5 and j == 1): lines.append(f't ctx exit {nctx + j}')
+            nctx += len(layout)
+            consts.append(nt - 1)
+        elif k == 6: lines.append(f't detach {src}'); nt += 1; consts.append(nt - 1)
+        elif k in (7, 8): lines.append(f't fromdata {src} 0 {"data" if k == 7 else "copy"}'); nt += 1; consts.append(nt - 1)
+        else:
+            if src in (3, 4, 5): continue               # (only a leaf can be frozen)
+            lines.append(f't setrg {src} 0'); consts.append(src)
+    # the graph that is differentiated: a fresh leaf and the constants
+    lines.append(L(True)); w = nt; nt += 1
+    r = w
+    for h in consts:
+        lines.append(f't op {rng.pick(["mul", "mul", "add"])} ' + (f'{r},{h}' if rng.chance(.5) else f'{h},{r}')); r = nt; nt += 1
+    lines.append(f't op mul {r},{w}'); r = nt; nt += 1
+    for j in range(nbw):
+        inside = rng.chance(.3)
+        if inside: lines += [f't ctx new {rng.pick(["rg", "ng"])}', f't ctx enter {nctx}']
+        lines.append(f't bw {r} {S} {D()}')
+        if inside: lines.append(f't ctx exit {nctx}'); nctx += 1
+    lines += [f't grad {k}' for k in range(nt)] + [f't flags {k}' for k in range(nt)] + [f't val {k}' for k in range(12)]
+    return {'kind': 'bystander', 'lines': lines, 'alias': {}, 'plan': [(d, BYSTANDERS[b]) for d, b in plan]}
+
+
+def extractor_case(rng):
+    """features computed under no_grad by a body (linear -> activation -> linear, function or layer object) whose parameters require grad
+    — never trained, or trained before — and a head trained on them: the body's parameters are bystanders of the head's backward"""
+    n, i, hdn, o = rng.randint(1, 3), rng.randint(1, 3), rng.randint(1, 3), rng.randint(1, 2)
+    V = lambda sh_: gen_dag.rand_data(rng, sh_)
+    lines = [gen_dag.leaf_line((n, i), V((n, i)), False), gen_dag.leaf_line((hdn, i), V((hdn, i)), True), gen_dag.leaf_line((hdn,), V((hdn,)), True),
+             gen_dag.leaf_line((hdn, hdn), V((hdn, hdn)), True)]
+    nt = 4
+    trained = rng.chance(.5)
+    if trained:      # an earlier training step of the body leaves gradients on its parameters
+        lines += ['t op linear 0,1,2 1', f't op {rng.pick(["relu", "tanh"])} {nt}', f't op linear {nt + 1},3 0',
+                  f"t bw {nt + 2} {show_ints((n, hdn))} {show_floats(V((n, hdn)))}"]; nt += 3
+    lines += ['t ctx new ng', 't ctx enter 0', 't op linear 0,1,2 1', f't op {rng.pick(["relu", "tanh", "sigmoid"])} {nt}', f't op linear {nt + 1},3 0', 't ctx exit 0']
+    feats = nt + 2; nt += 3
+    lines += [gen_dag.leaf_line((o, hdn), V((o, hdn)), True), gen_dag.leaf_line((o,), V((o,)), True), f't op linear {feats},{nt},{nt + 1} 1']
+    root = nt + 2; nt += 3
+    for _ in range(rng.randint(1, 2)):
+        lines.append(f"t bw {root} {show_ints((n, o))} {show_floats(V((n, o)))}")
+    lines += [f't grad {k}' for k in range(nt)] + [f't flags {k}' for k in range(nt)]
+    return {'kind': 'bystander', 'lines': lines, 'alias': {},
+            'plan': [('layers under no_grad (frozen feature extractor)', 'parameters with gradients of an earlier step' if trained else 'parameters without a gradient')]}
 
 
 def dag_case(rng, tier):
@@ -224,6 +357,14 @@ def cases(rng, tier):
         else: lines.append(f"t sop rdiv 0 s{common.fbits(2.0)}"); res = 4
         lines += [f't val {j}' for j in range(res + 1)]
         out.append({'kind': 'op', 'op': 'pow-family', 'lines': lines, 'alias': {}})
+    # every derivation applied to every bystander (one program per derivation), then mixtures
+    for _ in range(20 if tier == 'quick' else 600):
+        out.append(bystander_case(rng, [(rng.pick(DERIVATIONS), rng.randrange(len(BYSTANDERS))) for _ in range(rng.randint(1, 4))], rng.randint(1, 3)))
+    for _ in range(6 if tier == 'quick' else 100):
+        out.append(extractor_case(rng))
+    for rep_ in range(1 if tier == 'quick' else 10):
+        for d in DERIVATIONS:
+            out.append(bystander_case(rng, [(d, b) for b in range(len(BYSTANDERS))], rng.randint(1, 2)))
     for w in (rng.sample(BIG, 3) if tier == 'quick' else BIG) + CORNERS:
         out.append({'kind': 'big', 'which': w, 'seed': rng.randrange(2 ** 31), 'alias': {}, 'lines': ['t modes']})
     for c in out:
@@ -305,6 +446,7 @@ def _exec(c):
         io = [im.exec(l) for l in c['lines']]
     finally:
         im.close()
+    c['_first_at'] = getattr(im, 'first_at', None)
     return io, im.problems
 
 
@@ -322,20 +464,33 @@ def compare(c, mo, io):
 
 
 def nontrivial(c):
-    return bool(c['alias']) or c['kind'] == 'dag'
+    return bool(c['alias']) or c['kind'] in ('dag', 'bystander')
 
 
 def distribution(cases):
     d = {'aliased': sum(1 for c in cases if c['alias'])}
     for c in cases:
         d[c['kind']] = d.get(c['kind'], 0) + 1
+        for dv, b in c.get('plan', []):       # constants in a differentiated graph: how they were derived x the gradient state of the bystander they come from
+            k = f'constant by {dv} <- {b}'
+            d[k] = d.get(k, 0) + 1
     return d
 
 
 def oracle(c):
     io, problems = _exec(c)
+    at = c.get('_first_at')
+    if problems and at is not None and at + 1 < len(c['lines']) and c['kind'] != 'big':
+        short = dict(c, lines=c['lines'][:at + 1])          # the program up to the line at which the first problem showed
+        _, p2 = _exec(short)
+        if p2: c, problems = short, p2
     if problems:
-        return {'key': {'cls': 'mutation', 'what': problems[0].split(' changed ')[0][:40] if ' changed ' in problems[0] else 'repeat'},
+        what = 'repeat'
+        if ' changed ' in problems[0]:
+            l_, k_ = problems[0].split(' changed ')[:2]
+            tk = l_.split(' ')
+            what = ' '.join(tk[:3] if tk[1] in ('op', 'sop', 'loss') else tk[:2]) + ' changed ' + (k_.split("'")[1] if "'" in k_ else k_)
+        return {'key': {'cls': 'mutation', 'what': what},
                 'case': {'lines': c['lines'], 'alias': c['alias'], 'kind': c['kind'], 'which': c.get('which'), 'seed': c.get('seed')}, 'what': '; '.join(problems[:3])}
     return None
 
